@@ -16,7 +16,8 @@ from ..fakeserial import EBB3Board, FakePort, Profile, QUIET
 
 PROPERTY = "C04"
 
-FAULTS = Profile(write_exc=("SerialException", "OSError"), read_exc=("SerialException", "OSError"),
+EXC_KINDS = ("SerialException", "OSError", "RuntimeError")   # what a pyserial backend raises
+FAULTS = Profile(write_exc=EXC_KINDS, read_exc=EXC_KINDS,
                  latency=(0, 26), content=("err", "nameerr", "wrong"), silent=True,
                  read_window=2)
 
@@ -72,6 +73,7 @@ def run_history(chooser, steps):
         pre_err = obj.err
         pre_writes = sum(len(p.write_attempts) for p in ports)
         pre_ports = len(ports)
+        pre_faults = sum(len(p.faults) for p in ports)
         where = f"after {history!r}: "
         if kind == "never":
             history.append("never-connected")
@@ -96,6 +98,25 @@ def run_history(chooser, steps):
                 if exc is None and not is_failure_value(ret):
                     viols.append((f"value:{key_tail}", f"{where}{desc} on a {state_kind} object "
                                   f"returned {ret!r}, not a failure value"))
+            else:
+                # "recorded an error (... USB exception ...)": a port exception of any kind
+                # during a request on a healthy object is one of the errors that latch.  The
+                # reset/reboot/bootloader requests are exempt by design (the board leaves the
+                # bus); C05 decides the return value, here only the latch is demanded.
+                fired = [f for p in ports for f in p.faults][pre_faults:]
+                raised = [f for f in fired if f[1] in ("write_exc", "read_exc")]
+                sent = [w for p in ports for w in p.write_attempts][pre_writes:]
+                last = sent[-1].decode("ascii", "replace") if sent else ""
+                name = last.split(",")[0].strip().lower()
+                if raised and name not in ("r", "rb", "bl"):
+                    if exc is not None:
+                        viols.append((f"escaped:{method}", f"{where}{desc}: the port raised "
+                                      f"{raised[0][2]} and the request let {type(exc).__name__} "
+                                      f"escape; err = {obj.err!r}"))
+                    elif obj.err is None and obj.port is not None:
+                        viols.append((f"unlatched:{method}", f"{where}{desc}: the port raised "
+                                      f"{raised[0][2]} during {last!r} but no error was "
+                                      f"recorded, later requests will transmit"))
             history.append(desc)
         elif kind in ("disconnect", "disconnect_fault"):
             if kind == "disconnect_fault" and ports:
@@ -294,7 +315,7 @@ def run(ctx):
         "exhaustive": True,
     }
     assumptions = [
-        "environment alphabet per I/O point: write raises (SerialException, OSError), board "
+        "environment alphabet per I/O point: write raises (SerialException, OSError, RuntimeError), board "
         "silent, reply late (26 empty reads), device error line, name+error line, wrong-name "
         "line, read raises at the first two reads of each request",
         "a blocked method that performs no I/O meets no choice point, so running blocked "
